@@ -18,6 +18,8 @@ CONSTANTS Cap, Reserved, Unify, Kind, Backend, MinSeg0, FixedRewind,
           OwnedToo,       \* also the *_owned variants
           MinSegSet, IncSet, RewindSet, TruncSet, WithClear, WithLeak,
           WithReopen,     \* close + map_mut reopen of a file-backed arena as a call of the menu
+          WithFit,        \* state-dependent request sizes: all of the remaining fresh space, and exactly / one less than the
+                          \* size of each segment on the list (where an extent that is off by a few bytes shows)
           WithClone,      \* a second arena value (Clone) of the same arena: made, asked, allocated through, dropped
           Prefix,         \* scripted history applied before the free exploration starts (part of every driver)
           Emit
@@ -44,8 +46,13 @@ AllocOps ==
 RewindOk(s, op) ==
   LET t == RewindTarget(s, op.p, op.v, FixedRewind) IN \A i \in 1..Len(s.fl) : Seg(s.fl[i]).hi <= t
 
+FitOps(s) ==
+  (IF s.cap - s.cursor > 0 THEN {[k |-> "ab", n |-> s.cap - s.cursor, o |-> FALSE]} ELSE {})
+  \cup UNION {{[k |-> "ab", n |-> s.fl[i][2] - d, o |-> FALSE] : d \in {d \in {0, 1} : s.fl[i][2] - d > 0}} : i \in 1..Len(s.fl)}
+
 Menu(s) ==
-  (IF s.nextId <= MaxAllocs + Len(Prefix) /\ Cardinality(DOMAIN s.live) < MaxLive THEN AllocOps ELSE {})
+  (IF s.nextId <= MaxAllocs + Len(Prefix) /\ Cardinality(DOMAIN s.live) < MaxLive
+   THEN AllocOps \cup (IF WithFit THEN FitOps(s) ELSE {}) ELSE {})
   \cup {[k |-> "drop", h |-> h] : h \in DOMAIN s.live}
   \cup {[k |-> "dealloc", h |-> h] : h \in {h \in DOMAIN s.live : ~s.live[h].det}}
   \cup {[k |-> "detach", h |-> h] : h \in {h \in DOMAIN s.live : ~s.live[h].det}}
